@@ -13,7 +13,8 @@ import replay_passes
 import tlcrun
 
 PLANS = {"quick": {"comp": [("comp3", "comp", 3, 12000)], "MaxFields": 2},
-         "thorough": {"comp": [("comp3", "comp", 3, None), ("comp4", "comp", 4, 120000)], "MaxFields": 3}}
+         # (budget 4 has > 40M derivation states: explored by seeded random walks instead of exhaustively)
+         "thorough": {"comp": [("comp3", "comp", 3, None), ("compR5", "comp", 5, 120000, 60000)], "MaxFields": 3}}
 FN = ["a", "b", "c", "d"]
 
 
@@ -23,6 +24,10 @@ def class_source(kind, sig, name):
         fields.append(f"    {FN[j - 1]}: int" + ("" if j <= sig["r"] else f" = {20 + j}"))
     if kind == "dataclass":
         return f"@dataclass\nclass {name}:\n" + "\n".join(fields) + "\n"
+    if kind == "dataclass_derived":
+        # the last field is added by a subclass; the base class has the others
+        base = f"@dataclass\nclass {name}_base:\n" + ("\n".join(fields[:-1]) if fields[:-1] else "    pass") + "\n"
+        return base + f"\n\n@dataclass\nclass {name}({name}_base):\n" + fields[-1] + "\n"
     if kind == "dataclass_kwonly":
         # a keyword-only field declared first: __init__ takes it after the ordinary ones, fields() lists it first
         return f"@dataclass\nclass {name}:\n    z: int = field(default=7, kw_only=True)\n" + "\n".join(fields) + "\n"
@@ -47,8 +52,13 @@ def run(prop, tier):
     # ---------------- comprehensions
     jobs = []
     fams = {}
-    for (name, fam, budget, keep) in plan["comp"]:
-        progs, st = common.gen_programs(prop, name, fam, budget)
+    for entry in plan["comp"]:
+        (name, fam, budget, keep) = entry[:4]
+        if len(entry) > 4:
+            progs, st = common.gen_programs(prop, name, fam, budget, simulate=f"num={max(1, entry[4] // 16)}",
+                                            extra_args=["-depth", "80", "-seed", str(common.seed() + 13)])
+        else:
+            progs, st = common.gen_programs(prop, name, fam, budget)
         rep.add_tlc(st)
         total = len(progs)
         progs = [p for p in progs if "comp" in common.term_features(p)]
@@ -57,6 +67,10 @@ def run(prop, tier):
         fams[name] = {"generated": total, "with_comprehension_replayed": len(progs), "budget": budget}
         for p in progs:
             jobs.append((len(jobs), "sugar", p, {}))
+            # the same comprehension node at two places of one query (what inlining a helper that uses its parameter
+            # twice produces): (P, P) with both halves ONE shared object
+            if len(jobs) % 5 == 0:
+                jobs.append((len(jobs), "sugar", codec.T("tuple", a=[p, p]), {"shared": True}))
     recs = replay_passes.run_many(jobs)
     vrecs = [{"id": r["id"], "pass": "sugar", "in": r["in"], "out": r["out"], "exc": r["exc"],
               "flags": {"compiles": r["flags"]["compiles"], "shape": False, "malformed": False}} for r in recs]
@@ -92,7 +106,7 @@ def run(prop, tier):
     classes = {}
     lines = ["from dataclasses import dataclass, field\nfrom typing import NamedTuple\n\n"]
     for c in cases:
-        nm = f"{ {'dataclass': 'DC', 'namedtuple': 'NT', 'dataclass_initfalse': 'DI', 'dataclass_kwonly': 'DK'}[c['cls']] }_{c['sig']['n']}_{c['sig']['r']}"
+        nm = f"{ {'dataclass': 'DC', 'namedtuple': 'NT', 'dataclass_initfalse': 'DI', 'dataclass_kwonly': 'DK', 'dataclass_derived': 'DD'}[c['cls']] }_{c['sig']['n']}_{c['sig']['r']}"
         if nm not in classes:
             classes[nm] = True
             lines.append(class_source(c["cls"], c["sig"], nm) + "\n\n")
@@ -120,6 +134,13 @@ def run(prop, tier):
                "flags": {"compiles": True, "shape": False, "zkw": c["cls"] == "dataclass_kwonly"}}
         pos, kws = call_parts(c["shape"])
         try:
+            if c["cls"] == "dataclass_derived":
+                # the base class has been lowered earlier in this process
+                bcls = getattr(mod, c["clsname"] + "_base")
+                nb = c["sig"]["n"] - 1
+                bcall = ast.Call(func=ast.Constant(value=bcls), args=[ast.Constant(value=1) for _ in range(nb)], keywords=[])
+                resolve_syntatic_sugar(ast.Lambda(args=ast.arguments(posonlyargs=[], args=[ast.arg(arg="e")], kwonlyargs=[],
+                                                                    kw_defaults=[], defaults=[]), body=bcall))
             if c["route"] == "direct":
                 call = ast.Call(func=ast.Constant(value=getattr(mod, c["clsname"])),
                                 args=[ast.Constant(value=p) for p in pos],
